@@ -363,6 +363,35 @@ func genBmff(c *Ctx, malformed bool) *bmffTree {
 			}
 		}
 	}
+	if malformed && c.Rng.Intn(3) == 0 {
+		// a whole chain of boxes overstating their sizes: a payload box (CMT / PRVW / xpacket) and every box around it except
+		// the outermost claim more than the outermost holds
+		var chains [][]*bnode
+		var rec func(n *bnode, path []*bnode)
+		rec = func(n *bnode, path []*bnode) {
+			path = append(append([]*bnode{}, path...), n)
+			if n.tag == "cmt" || n.tag == "prvw" || n.tag == "xpacket" {
+				chains = append(chains, path)
+			}
+			for _, k := range n.kids {
+				rec(k, path)
+			}
+		}
+		for _, n := range t.top[1:] {
+			rec(n, nil)
+		}
+		if len(chains) > 0 {
+			ch := chains[c.Rng.Intn(len(chains))]
+			for _, n := range ch[1:] {
+				n.delta = 200 + c.Rng.Intn(6000)
+				n.tag += "!"
+			}
+			if len(ch) == 1 {
+				ch[0].delta = 64 + c.Rng.Intn(400)
+			}
+			return t
+		}
+	}
 	if malformed {
 		var all []*bnode
 		for _, n := range t.top {
